@@ -147,6 +147,14 @@ func genC08(t *Tape, tier string) *Scenario {
 	case 6:
 		sc.Admin = []AdminStep{{At: Dur(t.Intn(12)) * 500 * time.Microsecond, Kind: aClose}}
 		glue = false
+		// slow callbacks, so that Server.Close also lands inside NewSession, Mail or Rcpt
+		if t.Bool() {
+			cp.ParkNewSession = Dur(1+t.Intn(8)) * 500 * time.Microsecond
+		}
+		if t.Bool() {
+			cp.ParkMail = Dur(1+t.Intn(4)) * 500 * time.Microsecond
+			cp.ParkRcpt = Dur(1+t.Intn(4)) * 500 * time.Microsecond
+		}
 	case 7:
 		// STARTTLS: the old session's Logout parks (it is not under Conn.locker there) while Server.Close fires
 		cp.ParkLogout = Dur(1+t.Intn(5)) * time.Millisecond
@@ -215,7 +223,9 @@ func checkC08(sc *Scenario, h *History) []Violation {
 			continue
 		}
 		for _, e := range h.Events {
-			if e.Conn == c.ID && e.Seq >= c.SrvCloseSeq {
+			// (a Logout after the socket was closed is the one callback that is due:
+			// a session whose NewSession was still running when Server.Close struck)
+			if e.Conn == c.ID && e.Seq >= c.SrvCloseSeq && e.Kind != "Logout" {
 				out = append(out, Violation{Rule: "C08.executed-after-close", Detail: fmt.Sprintf("%s(%s) began after the server had closed the connection", e.Kind, e.Arg), Witness: wit + " cb=" + e.Kind + dataAbortTag(e)})
 				break
 			}
@@ -267,6 +277,9 @@ func classifyC08(sc *Scenario, h *History, st *Stats) string {
 	for _, e := range h.Events {
 		if e.Kind == "Logout" && e.End-e.Begin > 0 {
 			st.Probes["logout_parked_during_starttls"]++
+		}
+		if e.Kind == "NewSession" && c.S2C.ClosedAt > e.Begin && c.S2C.ClosedAt < e.End {
+			st.Probes["server_close_lands_inside_NewSession"]++
 		}
 	}
 	if c.HandshakeDone {
